@@ -62,13 +62,18 @@ def label(kind):
         return "Count[%s,start=%d]" % (kind["name"], kind["start"])
     if t == "Sum":
         return "Sum[start=%d]" % kind["start"]
+    if t == "DSum":
+        return "DSum" if not kind.get("dstart") else "DSum[start]"
     if t == "Mean":
         return "Mean[%s%s]" % (kind["inner"], ",pass_on_empty" if kind["poe"] else "")
     if t == "VMC":
-        return "VarianceMeanCount[%s%s]" % ("corrected" if kind["corr"] else "uncorrected",
-                                            ",pass_on_empty" if kind["poe"] else "")
+        return "VarianceMeanCount[%s%s%s]" % ("corrected" if kind["corr"] else "uncorrected",
+                                              ",pass_on_empty" if kind["poe"] else "",
+                                              ",sums-given" if kind.get("given") else "")
     if t == "Vec":
-        return "Vectorize[%s]" % label(kind["inner"])
+        inner = label(kind["inners"][0]) + ",dim=%d" % len(kind["inners"]) if kind["form"] == "dim" else \
+            "[" + ",".join(label(k) for k in kind["inners"]) + "]"
+        return "Vectorize[%s%s]" % (inner, ",construct" if kind["cons"] == "named" else "")
     if t == "Store":
         return "StoreFilled[%s]" % ("group" if kind["grp"] else "one-by-one")
     if t == "GroupBy":
@@ -78,7 +83,8 @@ def label(kind):
     if t == "Hist2":
         return "Histogram[2d]"
     if t == "Graph":
-        return "Graph[scale=%s,sort=%s]" % ("None" if kind["scale"] == NONE else kind["scale"], kind["sort"])
+        return "Graph[scale=%s,sort=%s%s]" % ("None" if kind["scale"] == NONE else kind["scale"], kind["sort"],
+                                              ",points" if kind.get("ipts") else "")
     return t
 
 
@@ -86,6 +92,12 @@ def fresh_kind(kind):
     k = dict(kind)
     if k["t"] in ("Count", "Sum"):
         k["start"] = 0
+    elif k["t"] == "DSum":
+        k["dstart"] = []
+    elif k["t"] == "Vec":
+        k["inners"] = [fresh_kind(x) for x in k["inners"]]
+    elif k["t"] == "Graph":
+        k["ipts"], k["ictx"] = [], {}
     return k
 
 
@@ -103,8 +115,7 @@ def py_data(kind, d):
     if is_float_kind(kind):
         return limbs_float(d)
     if t == "Vec":
-        inner = kind["inner"]
-        return tuple(py_data(inner, x) for x in d)
+        return tuple(py_value(k, x) for k, x in zip(kind["inners"], d))
     if t in ("Graph", "Hist2"):
         return tuple(d)
     return d
@@ -127,14 +138,26 @@ def build(kind):
     if t == "Sum":
         return lena.math.Sum(kind["start"])
     if t == "DSum":
+        if kind.get("dstart"):
+            start = limbs_value(kind["dstart"])
+            return lena.math.DSum(int(start) if start.denominator == 1 else float(start))
         return lena.math.DSum()
     if t == "Mean":
-        return lena.math.Mean(sum_seq=lena.math.DSum() if kind["inner"] == "DSum" else None,
-                              pass_on_empty=kind["poe"])
+        import lena.core
+        sum_seq = {"py": lambda: None, "DSum": lena.math.DSum, "Sum": lena.math.Sum,
+                   "Sum2": lambda: lena.core.Split([lena.math.Sum(), lena.math.Sum()])}[kind["inner"]]()
+        return lena.math.Mean(sum_seq=sum_seq, pass_on_empty=kind["poe"])
     if t == "VMC":
+        if kind.get("given"):
+            return lena.math.VarianceMeanCount(sum_sq=lena.math.Sum(), sum_=lena.math.Sum(),
+                                               corrected=kind["corr"], pass_on_empty=kind["poe"])
         return lena.math.VarianceMeanCount(corrected=kind["corr"], pass_on_empty=kind["poe"])
     if t == "Vec":
-        return lena.math.Vectorize(build(kind["inner"]), dim=2)
+        n = len(kind["inners"])
+        construct = vec_class(n) if kind["cons"] == "named" else None
+        if kind["form"] == "dim":
+            return lena.math.Vectorize(build(kind["inners"][0]), dim=n, construct=construct)
+        return lena.math.Vectorize([build(k) for k in kind["inners"]], construct=construct)
     if t == "Store":
         return lena.flow.StoreFilled(yield_as_a_group=kind["grp"])
     if t == "GroupBy":
@@ -152,8 +175,22 @@ def build(kind):
     if t == "Hist2":
         return lena.structures.Histogram([list(kind["edges"]), list(kind["edges2"])])
     if t == "Graph":
-        return lena.structures.Graph(scale=None if kind["scale"] == NONE else kind["scale"], sort=kind["sort"])
+        kw = {}
+        if kind.get("ipts"):
+            kw = {"points": [tuple(p) for p in kind["ipts"]], "context": py_ctx(kind["ictx"])}
+        return lena.structures.Graph(scale=None if kind["scale"] == NONE else kind["scale"], sort=kind["sort"], **kw)
     raise ValueError(kind)
+
+
+_VEC_CLASSES = {}
+
+
+def vec_class(n):
+    """the *construct* of Vectorize: a namedtuple class of dimension n"""
+    import collections
+    if n not in _VEC_CLASSES:
+        _VEC_CLASSES[n] = collections.namedtuple("VecN", ["f%d" % i for i in range(n)])
+    return _VEC_CLASSES[n]
 
 
 # ------------------------------------------------------------------ observation
@@ -245,6 +282,8 @@ def data_mismatch(kind, exp, got):
         if not isinstance(got, decimal.Decimal):
             return "data-type"
         return None if Fraction(got) == limbs_value(exp) else "data"
+    if t == "Mean" and not isinstance(exp, dict):      # further values of a multi-valued sum_seq
+        return None if (type(got) is int and got == exp) else "data"
     if t == "Mean":
         s = limbs_value(exp["s"]) if kind["inner"] == "DSum" else exp["s"]
         want = float(s) / float(exp["n"])
@@ -264,12 +303,28 @@ def data_mismatch(kind, exp, got):
         msq = (exp["vnum"] / float(n) + float(s) * s) / float(n) / n
         return None if close(var, want, msq) else "variance"
     if t == "Vec":
-        if not (isinstance(got, tuple) and len(got) == 2):
+        if not isinstance(got, tuple):
             return "data-type"
-        for e, g in zip(exp, got):
-            m = data_mismatch(kind["inner"], e, g)
+        if (type(got) is vec_class(len(kind["inners"]))) != (kind["cons"] == "named") or \
+                (kind["cons"] != "named" and type(got) is not tuple):
+            return "construct-type"
+        if len(got) != len(exp):
+            return "dimension"
+        for inner, e, g in zip(kind["inners"], exp, got):
+            if "pad" in e:
+                if g is not None:
+                    return "padding"
+                continue
+            if g is None:
+                return "component-missing"
+            data, ctx, h = (g[0], g[1], True) if _has_context(g) else (g, {}, False)
+            if h != e["h"]:
+                return "component-pair-shape"
+            if enc_ctx(ctx) != py_ctx_enc(e["c"]):
+                return "component-context"
+            m = data_mismatch(inner, e["d"], data)
             if m:
-                return m
+                return "component-" + m
         return None
     if t == "Store" and not kind["grp"]:
         return None if (type(got) is int and got == exp) else "data"
@@ -354,6 +409,8 @@ def well_shaped(c):
 
 def rand_ctx(rnd, kind):
     t = kind["t"]
+    if kind.get("_component") and t not in ("Store", "GroupBy", "Count"):
+        return None          # numeric components of a vector are bare numbers
     if rnd.random() < 0.35 and not (t == "GroupBy" and kind["by"] == "a"):
         return None          # a bare value
     c = {}
@@ -382,24 +439,34 @@ def rand_float(rnd, prev):
 
 
 def rand_kind(rnd):
-    t = rnd.choice(["Count", "Sum", "DSum", "DSum", "Mean", "MeanD", "VMC", "VecSum", "VecMean", "Store", "GroupBy",
+    t = rnd.choice(["Count", "Sum", "DSum", "DSum", "Mean", "MeanD", "VMC", "VecSum", "VecMean", "VecList", "VecList",
+                    "Store", "GroupBy",
                     "Hist", "Hist", "Hist2", "Graph"])
     if t == "Count":
         return {"t": "Count", "name": rnd.choice(["count", "n2"]), "start": rnd.choice([0, 0, 3, 10])}
     if t == "Sum":
         return {"t": "Sum", "start": rnd.choice([0, 0, 7, -4])}
     if t == "DSum":
-        return {"t": "DSum"}
+        return {"t": "DSum", "dstart": rnd.choice([[], [], to_limbs(2.5), to_limbs(-7)])}
     if t == "Mean":
-        return {"t": "Mean", "inner": "py", "poe": rnd.random() < 0.3}
+        return {"t": "Mean", "inner": rnd.choice(["py", "py", "Sum", "Sum2"]), "poe": rnd.random() < 0.3}
     if t == "MeanD":
         return {"t": "Mean", "inner": "DSum", "poe": rnd.random() < 0.3}
     if t == "VMC":
-        return {"t": "VMC", "corr": rnd.random() < 0.6, "poe": rnd.random() < 0.3}
-    if t == "VecSum":
-        return {"t": "Vec", "inner": {"t": "Sum", "start": 0}}
-    if t == "VecMean":
-        return {"t": "Vec", "inner": {"t": "Mean", "inner": "py", "poe": False}}
+        return {"t": "VMC", "corr": rnd.random() < 0.6, "poe": rnd.random() < 0.3, "given": rnd.random() < 0.3}
+    if t in ("VecSum", "VecMean"):
+        n = rnd.randint(1, 4)
+        inner = {"t": "Sum", "start": rnd.choice([0, 0, 4])} if t == "VecSum" else \
+            {"t": "Mean", "inner": "py", "poe": rnd.random() < 0.5}
+        return {"t": "Vec", "inners": [inner] * n, "form": "dim", "cons": rnd.choice(["tuple", "tuple", "named"]),
+                "vs": "random"}
+    if t == "VecList":
+        pool = [{"t": "Sum", "start": 0}, {"t": "Sum", "start": 3}, {"t": "Store", "grp": False},
+                {"t": "Store", "grp": True}, {"t": "GroupBy", "by": "a"}, {"t": "GroupBy", "by": "all"},
+                {"t": "Count", "name": "count", "start": 0}, {"t": "Mean", "inner": "py", "poe": True},
+                {"t": "Mean", "inner": "py", "poe": False}, {"t": "VMC", "corr": True, "poe": False, "given": False}]
+        return {"t": "Vec", "inners": [rnd.choice(pool) for _ in range(rnd.randint(1, 4))], "form": "list",
+                "cons": "tuple", "vs": "random"}
     if t == "Store":
         return {"t": "Store", "grp": rnd.random() < 0.5}
     if t == "GroupBy":
@@ -419,7 +486,11 @@ def rand_kind(rnd):
         n, m = rnd.randint(1, 3), rnd.randint(1, 3)
         return {"t": "Hist2", "edges": sorted(rnd.sample(range(-4, 6), n + 1)),
                 "edges2": sorted(rnd.sample(range(-4, 6), m + 1)), "init2": [[0] * m for _ in range(n)]}
-    return {"t": "Graph", "scale": rnd.choice([NONE, NONE, 2]), "sort": rnd.random() < 0.6}
+    g = {"t": "Graph", "scale": rnd.choice([NONE, NONE, 2]), "sort": rnd.random() < 0.6, "ipts": [], "ictx": {}}
+    if rnd.random() < 0.3:
+        g["ipts"] = [[rnd.randint(0, 4), rnd.randint(-9, 9)] for _ in range(rnd.randint(1, 3))]
+        g["ictx"] = {"a": rnd.randint(0, 2)}
+    return g
 
 
 def rand_value(rnd, kind, prev):
@@ -433,8 +504,9 @@ def rand_value(rnd, kind, prev):
     elif t in ("VMC", "Mean"):
         d = pd = rnd.randint(-50, 50)
     elif t == "Vec":
-        d = [rnd.randint(-50, 50), rnd.randint(-50, 50)]
-        pd = tuple(d)
+        comps = [rand_value(rnd, dict(k, _component=True), prev) for k in kind["inners"]]
+        d = [c[0] for c in comps]
+        pd = tuple(c[1] for c in comps)
     elif t == "Hist2":
         d = [rnd.randint(-6, 8), rnd.randint(-6, 8)]
         pd = tuple(d)
@@ -469,6 +541,8 @@ def enc_data(kind, got, fills):
         if ls is None:
             raise Malformed("data-not-a-dyadic")
         return ls
+    if t == "Mean" and type(got) is int:          # further values of a multi-valued sum_seq
+        return got
     if t == "Mean":
         n = len(fills)
         s = sum((Fraction(x) for x in fills), Fraction(0))
@@ -485,9 +559,24 @@ def enc_data(kind, got, fills):
             ok = close(got[0], float(Fraction(vnum, vden)), q / float(n))
         return {"vnum": vnum, "vden": vden, "s": s, "n": n, "rendered": bool(ok)}
     if t == "Vec":
-        if not (isinstance(got, tuple) and len(got) == 2):
+        n = len(kind["inners"])
+        if not (isinstance(got, tuple) and len(got) == n):
             raise Malformed("data-type")
-        return [enc_data(kind["inner"], got[j], [f[j] for f in fills]) for j in range(2)]
+        if (type(got) is vec_class(n)) != (kind["cons"] == "named") or (kind["cons"] != "named" and type(got) is not tuple):
+            raise Malformed("construct-type")
+        out = []
+        for j, inner in enumerate(kind["inners"]):
+            g = got[j]
+            if g is None:
+                out.append({"pad": True})
+                continue
+            data, ctx, h = (g[0], g[1], True) if _has_context(g) else (g, {}, False)
+            c = enc_ctx(ctx)
+            if not well_shaped(c):
+                raise Malformed("context-shape")
+            col = [f[j][0] if _has_context(f[j]) else f[j] for f in fills]
+            out.append({"d": enc_data(inner, data, col), "c": c, "h": h})
+        return out
     if t == "Store" and not kind["grp"]:
         if type(got) is not int:
             raise Malformed("data-type")
@@ -546,7 +635,7 @@ def record_history(rnd, max_ops=24):
                 events.append({"ev": "c", "r": enc_observation(kind, obs, fills), "k": lab})
             except Malformed as exc:
                 raise Abort("compute:" + str(exc), idx, kind, events)
-        else:
+        elif not (kind["t"] == "Mean" and kind["inner"] == "Sum2"):     # that Mean has no reset
             try:
                 el.reset()
             except Exception as exc:   # noqa
